@@ -232,7 +232,13 @@ func Soup(t *rapid.T) Case {
 }
 
 // G3: parametrised hostile templates.
-func Template(t *rapid.T) Case {
+// Templates names every template of Template.
+var Templates = []string{"typedef-cycle", "uses-cycle", "identity-cycle", "include-cycle", "import-cycle", "cross-module-typedef-cycle", "cross-module-uses-cycle", "absent", "lone-submodule", "bad-augment", "bad-deviation", "duplicates", "numbers", "leafref-union-cycle", "choice-case-oddities", "fan-in", "header-mix", "long-chain", "enum-unions", "prefix-run", "error-budget", "bits-sharing-a-position", "comment-sequences"}
+
+func Template(t *rapid.T) Case { return TemplateFrom(t, Templates) }
+
+// TemplateFrom is Template restricted to the named templates.
+func TemplateFrom(t *rapid.T, names []string) Case {
 	c := Case{Gen: "hostile-template"}
 	mod := func(name, body string) File {
 		return File{Name: name + ".yang", Text: fmt.Sprintf("module %s { namespace \"urn:%s\"; prefix %s; %s }", name, name, name, body)}
@@ -249,7 +255,7 @@ func Template(t *rapid.T) Case {
 		}
 		return fmt.Sprintf(where, s)
 	}
-	switch rapid.SampledFrom([]string{"typedef-cycle", "uses-cycle", "identity-cycle", "include-cycle", "import-cycle", "cross-module-typedef-cycle", "cross-module-uses-cycle", "absent", "lone-submodule", "bad-augment", "bad-deviation", "duplicates", "numbers", "leafref-union-cycle", "choice-case-oddities", "fan-in", "header-mix", "long-chain", "enum-unions", "prefix-run", "error-budget", "bits-sharing-a-position", "comment-sequences"}).Draw(t, "template") {
+	switch rapid.SampledFrom(names).Draw(t, "template") {
 	case "typedef-cycle":
 		var b strings.Builder
 		for i := 0; i < n; i++ {
